@@ -560,6 +560,38 @@ func observePar(src string) string {
 	return fmt.Sprintf("fmt=%s par=%s same=%s", fs, pan, b01(same))
 }
 
+// c20Tables (round 5e): a snapshot of the package-level tables of the token package that scanner and parser consult
+// (HttpMethods itself is handed to the parser's variadic helpers with `...`; keywords through LookupKeyword).
+func c20Tables() string {
+	var b strings.Builder
+	fmt.Fprint(&b, token.HttpMethods...)
+	for _, w := range []string{"syntax", "info", "import", "type", "service", "returns", "map", "any", "interface", "get", "post", "int", "string", "foo", "'get'"} {
+		tp, ok := token.LookupKeyword(w)
+		fmt.Fprintf(&b, "|%s:%d:%v", w, int(tp), ok)
+	}
+	return b.String()
+}
+
+var c20Tables0 = c20Tables()
+
+// observeSeq: the section's source (valid or not) has been processed; now a fixed VALID program is formatted in the same
+// process. It must be accepted and formatted as always, and the package-level tables must be what they were at start.
+func observeSeq(src string) string {
+	if len(src) == 0 {
+		return "na"
+	}
+	fs, _ := formatSrc(src)
+	if c20OtherOut == "" {
+		_, c20OtherOut = formatSrc0(c20Other)
+	}
+	st, out := formatSrc0(c20Other)
+	tb := "same"
+	if c20Tables() != c20Tables0 {
+		tb = "changed"
+	}
+	return fmt.Sprintf("fmt=%s other=%s same=%s tables=%s", fs, st, b01(st == "ok" && out == c20OtherOut), tb)
+}
+
 // c20Watchdog (round 5c): a runaway formatter (exponential growth inside one Format call) must not exhaust the machine:
 // the harness ends itself when its heap passes 1.5 GiB (the unchanged code needs about 0.1 GiB); the check turns the
 // dead harness into a crash replay of the section that was running.
@@ -818,6 +850,8 @@ func TestVerifC20(t *testing.T) {
 				return observeFile(t, src.String())
 			case "inter":
 				return observeInter(src.String())
+			case "seq":
+				return observeSeq(src.String())
 			case "wrerr":
 				return observeWrErr(src.String())
 			case "par":
